@@ -201,6 +201,10 @@ class NaiveOracle:
             if (a.cpu, a.ram) != tuple(rd["pre"][a.pool_id]):
                 raise Violation("C17.not_whole_free", {"pool": a.pool_id, "given": [a.cpu, a.ram],
                                                        "free": list(rd["pre"][a.pool_id])}, t)
+            tc, tr = rd["pre_true"][a.pool_id]
+            if abs(a.cpu - tc) > 1e-9 * max(1.0, abs(tc)) or abs(a.ram - tr) > 1e-9 * max(1.0, abs(tr)):
+                raise Violation("C17.not_whole_free", {"pool": a.pool_id, "given": [a.cpu, a.ram], "really_free": [tc, tr],
+                                                       "pool_says_free": list(rd["pre"][a.pool_id])}, t)
             if rd["pre_failed"].get(a.pipeline_id, 0) > 0:
                 raise Violation("C17.failed_pipeline_assigned", {"pipeline": a.pipeline_id}, t)
             if (not self.multi) or self.template:
@@ -399,9 +403,18 @@ class UncontendedOracle:
         from . import model as M
         from .common import Discard
         for a in asg:
-            self.asg.append((R.tick, [R.okey(o) for o in a.ops], a.cpu))
+            cpu_, ram_ = a.cpu, a.ram
+            if len(R.pipes) == 1 and R.cfg["pools"] == 1:
+                # what the policy hands out when nothing else is around is known (C17/C18): the whole pool for naive and
+                # the starter template, one CPU and the pool's RAM for overbook - the ticks "its operators need" are
+                # the ticks on THOSE resources, whatever the Assignment object says afterwards
+                if R.cfg["algo"] in ("naive", "template"):
+                    cpu_, ram_ = R.cfg["cpus"], R.cfg["ram"]
+                elif R.cfg["algo"] == "overbook":
+                    cpu_, ram_ = 1, R.cfg["ram"]
+            self.asg.append((R.tick, [R.okey(o) for o in a.ops], cpu_))
             self.by_ops = getattr(self, "by_ops", {})
-            self.by_ops[id(a.ops)] = ([R.okey(o) for o in a.ops], a.cpu, a.ram)
+            self.by_ops[id(a.ops)] = ([R.okey(o) for o in a.ops], cpu_, ram_)
             R.hold.append(a.ops)
         for r in res:
             if not r.failed():
